@@ -322,3 +322,19 @@ theorem C20.tables_nonvacuous :
     guardedBy "mu" (accessesOf "packet.Writer" "receives") = true ∧
     guardedBy "nosuchlock" (accessesOf "packet.Writer" "receives") = false ∧
     orderEdges.contains ("symbol.Table.mu", "process.Process.mu") = true := by decide
+
+/-- Methods that take a mutex of their object at more than one site (several critical sections
+in one method, or a closure that locks later): exactly the reviewed ones. A method whose single
+critical section is split in two (check under one lock acquisition, act under another) breaks this
+theorem – that is an atomicity change no lock-set rule can see. -/
+def C20.reviewedMultiSection : List (String × String × String × Nat) :=
+  [ ("port.InPort", "Open", "mu", 3),          -- RLock fast path; Lock with re-check; exit-hook closure
+    ("port.OutPort", "Open", "mu", 3),         -- same shape
+    ("process.Local", "LoadOrStore", "mu", 3), -- RLock fast path; Lock with re-check; Lock to publish (modelled step by step in C05)
+    ("runtime.Agent", "accept", "mu", 3),
+    ("runtime.Agent", "hooks", "mu", 2),
+    ("store.store", "Watch", "mu", 2) ]        -- Watch itself; the reaper goroutine's closure
+
+theorem C20.sections_reviewed :
+    (acquireSites.filter (fun a => a.2.2.2 != 1)).all (fun a => C20.reviewedMultiSection.contains a) = true := by
+  decide
